@@ -152,6 +152,10 @@ var c10BodyText = map[string]string{
 	"expr-to-stmts": "\n-tgt(1)\n+tgq(1)\n+tgq(3)\n",
 	"stmts":         "\n-tgt(1)\n-tgt(2)\n+tgq(1)\n",
 	"decl":          "\n-func use() {\n-\ttgt(1)\n-\ttgt(2)\n-}\n+func use() {\n+\ttgq(1)\n+}\n",
+	// the code refers to the package through the metavariable that names the
+	// import (patch form "meta" only); the file calls it under the name of
+	// the last of its imports of the path
+	"uses-mv": "\n-mv.tgt(1)\n+mv.tgq(1)\n",
 }
 
 // c10Build renders the patch and the file.
@@ -259,6 +263,19 @@ func c10Build(cs *c10Case) (patch, file string) {
 			rev[i], rev[j] = rev[j], rev[i]
 		}
 		writeGroup(append(append(append([]string{}, unrelatedAfter...), rev...), extra...))
+	}
+	if cs.Body == "uses-mv" {
+		name := ""
+		for _, ff := range cs.FileForms {
+			switch ff {
+			case "nm", "other", "mv":
+				name = ff
+			case "guess":
+				name = guess
+			}
+		}
+		f.WriteString("func use() {\n\t" + name + ".tgt(1)\n\ttgt(2)\n}\n")
+		return p.String(), f.String()
 	}
 	f.WriteString("func use() {\n\ttgt(1)\n\ttgt(2)\n}\n")
 	return p.String(), f.String()
@@ -401,6 +418,19 @@ func TestC10(t *testing.T) {
 											continue // no guard at all
 										}
 										variants := []*c10Case{{PatchForm: pf, FileForms: fs, Layout: lo, Pkg: pk, LineKind: lk, Second: sd, Body: body, PathStyle: style, Spelling: spelling}}
+										if body == "" && style == "" && spelling == "" && sd == "none" && pf == "meta" && (lo == "group" || lo == "singles-among" || lo == "reversed-group") {
+											named := len(fs) > 0
+											for _, ff := range fs {
+												if ff != "nm" && ff != "other" && ff != "mv" && ff != "guess" {
+													named = false
+												}
+											}
+											if named {
+												v := *variants[0]
+												v.Body = "uses-mv"
+												variants = append(variants, &v)
+											}
+										}
 										if body == "" && style == "" && spelling == "" && sd == "none" && (lo == "group" || lo == "singles-among") {
 											if pk != "absent" {
 												v := *variants[0]
